@@ -117,7 +117,7 @@ pub fn run(ctx: &mut Ctx) {
             t.uncovered
         ));
     }
-    ctx.rule = "single_step: every instruction variant from the crate's enum iterators (+ literals, inputs, prints, blocks) performed on boundary-biased states (each stack size 0..6, slack 0..5, edge-heavy i64/f64 values); programs: recursive instruction/block trees and Plushy-derived programs with initial stacks, per-stack limits, 0-4 bound inputs, lock-step against the reference interpreter and run_to_completion under a sweep of step limits. non-trivial = at least one executed instruction changed a stack or the output (model-reported); distinct by JSON encoding of the case".into();
+    ctx.rule = "single_step: every instruction variant from the crate's enum iterators (+ literals, inputs, prints, blocks) performed on boundary-biased states (each stack size 0..6, slack 0..5, edge-heavy i64/f64 values); programs: recursive instruction/block trees and Plushy-derived programs with initial stacks, per-stack limits, 0-4 bound inputs, lock-step against the reference interpreter and run_to_completion under a sweep of step limits; stack-churn programs that fill, empty (Flush / Pop) and refill one typed stack of small maximum while other instructions push onto it. non-trivial = at least one executed instruction changed a stack or the output (model-reported); distinct by JSON encoding of the case".into();
     ctx.assumptions.push("std Display of i64/f64/bool and Rust `as` int->float rounding are trusted; double faults (missing operands and full destination) accept skip or abort; Power with exponent > u32::MAX accepts skip or the exact value".into());
     let (n_single, n_prog, shape, full) = ctx.tier.pick(
         (400_000u32, 40_000u32, QUICK_SHAPE, 48usize),
@@ -129,6 +129,10 @@ pub fn run(ctx: &mut Ctx) {
         T.with(|t| oracle_single(t, c, p))
     });
     ctx.run_prop("programs", n_prog, || program_case(&Tables::build(), shape), move |c, p| {
+        thread_local! { static T: Tables = Tables::build(); }
+        T.with(|t| oracle_program(t, c, p, full))
+    });
+    ctx.run_prop("stack_churn_programs", n_prog / 2, || crate::gen_vm::churn_case(&Tables::build()), move |c, p| {
         thread_local! { static T: Tables = Tables::build(); }
         T.with(|t| oracle_program(t, c, p, full))
     });
